@@ -305,6 +305,12 @@ def gen_netlist(rng, mode="full", max_stmts=10, max_inputs=5, depth=4, lookalike
         cands = [w for w in nl["wires"] + nl["outputs"] + nl["inputs"] if w not in renames]
         for w in rng.sample(cands, min(len(cands), rng.randint(1, 2))):
             renames[w] = rng.choice(["\\" + w + "[1]", "\\" + w + "-x", "\\3" + w, "\\" + w + "/q"])
+    if fast and rng.random() < 0.1:
+        # nets whose names consist of the radix letters and a binary digit (d0, b1, h1, bd0 ...)
+        pool = [x for x in ["d0", "d1", "b0", "b1", "h0", "h1", "bd0", "hb1", "dd1"] if x not in used_names]
+        cands = [w for w in nl["wires"] + nl["outputs"] + nl["inputs"] if w not in renames]
+        for w, new in zip(rng.sample(cands, min(len(cands), rng.randint(1, 3))), rng.sample(pool, min(len(pool), 3))):
+            renames[w] = new
     if not fast and rng.random() < 0.02:
         # net names of 60..100 characters
         cands = [w for w in nl["wires"] + nl["outputs"] + nl["inputs"] if w not in renames]
